@@ -1,3 +1,4 @@
+import numpy as np
 from PEPit.function import Function
 
 
@@ -86,10 +87,12 @@ class ConvexLipschitzFunction(Function):
         see [1, Theorem 3.5].
         """
 
-        self.add_constraints_from_one_list_of_points(list_of_points=self.list_of_points,
-                                                     constraint_name="lipschitz_continuity",
-                                                     set_class_constraint_i=self.set_lipschitz_continuity_constraint_i,
-                                                     )
+        if self.M != np.inf:
+            self.add_constraints_from_one_list_of_points(list_of_points=self.list_of_points,
+                                                         constraint_name="lipschitz_continuity",
+                                                         set_class_constraint_i=
+                                                         self.set_lipschitz_continuity_constraint_i,
+                                                         )
 
         self.add_constraints_from_two_lists_of_points(list_of_points_1=self.list_of_points,
                                                       list_of_points_2=self.list_of_points,
